@@ -757,6 +757,9 @@ func (v *fnVC) trCall(x *CallE, env *Env) (T, types.Type) {
 		b, _ := v.tr(x.Args[1], env)
 		v.P.add("inTree", inTreeDecl)
 		return app("inTree", a, app("root", b)), types.Typ[types.Bool]
+	case "isTyped": // isTyped(e): e is nil or its dynamic type implements ucfg.Error
+		a, _ := v.tr(x.Args[0], env)
+		return or(eq(a, "(mkI 0 0)"), app("impl_ucfg_Error", app("itag", a))), types.Typ[types.Bool]
 	case "nilv": // nilv(): the nil value (interface)
 		return "(mkI 0 0)", v.e.typesPkg(modPrefix).Scope().Lookup("value").Type()
 	case "subval": // subval(c): the value (boxed cfgSub) wrapping config c
